@@ -2,6 +2,7 @@ package http
 
 import (
 	"context"
+	"net"
 	"net/http"
 	"os"
 	"os/signal"
@@ -42,7 +43,9 @@ func ListenAndServe(ctx context.Context, args ...object.Object) object.Object {
 
 	var wg sync.WaitGroup
 	var listenErr error
-	server := &http.Server{Addr: addr, Handler: handler}
+	// Requests are served under the context of this evaluation: handlers are
+	// cancelled with it and see the OS it carries
+	server := &http.Server{Addr: addr, Handler: handler, BaseContext: func(net.Listener) context.Context { return ctx }}
 	wg.Add(1)
 	go func() {
 		defer wg.Done()
@@ -56,9 +59,9 @@ func ListenAndServe(ctx context.Context, args ...object.Object) object.Object {
 	case <-stop:
 	}
 
-	ctx, cancel := context.WithTimeout(context.Background(), 5*time.Second)
+	shutdownCtx, cancel := context.WithTimeout(context.Background(), 5*time.Second)
 	defer cancel()
-	if err := server.Shutdown(ctx); err != nil {
+	if err := server.Shutdown(shutdownCtx); err != nil {
 		return object.NewError(err)
 	}
 	wg.Wait()
@@ -105,16 +108,25 @@ func ListenAndServeTLS(ctx context.Context, args ...object.Object) object.Object
 
 	var wg sync.WaitGroup
 	var listenErr error
-	server := &http.Server{Addr: addr, Handler: handler}
+	server := &http.Server{Addr: addr, Handler: handler, BaseContext: func(net.Listener) context.Context { return ctx }}
 	wg.Add(1)
 	go func() {
 		defer wg.Done()
 		listenErr = server.ListenAndServeTLS(certFile, keyFile)
 	}()
 
-	ctx, cancel := context.WithTimeout(context.Background(), 5*time.Second)
+	// Serve until the evaluation is cancelled or the process is told to stop,
+	// like ListenAndServe does
+	stop := make(chan os.Signal, 1)
+	signal.Notify(stop, syscall.SIGINT, syscall.SIGTERM)
+	select {
+	case <-ctx.Done():
+	case <-stop:
+	}
+
+	shutdownCtx, cancel := context.WithTimeout(context.Background(), 5*time.Second)
 	defer cancel()
-	if err := server.Shutdown(ctx); err != nil {
+	if err := server.Shutdown(shutdownCtx); err != nil {
 		return object.NewError(err)
 	}
 	wg.Wait()
